@@ -753,7 +753,13 @@ func (p *Program) runEntry(ec EntryCfg, workers int, solverBin string, logDir st
 	}
 	for _, l := range res.Required {
 		if !res.Reached[l] {
-			res.Inconclusive = append(res.Inconclusive, "vacuous: witness not reached: "+l)
+			if len(res.Partial) > 0 {
+				// the exploration was cut by the thorough-tier time budget: an unreached witness says
+				// nothing about vacuity of the harness
+				res.Partial = append(res.Partial, "witness not reached in the explored part: "+l)
+			} else {
+				res.Inconclusive = append(res.Inconclusive, "vacuous: witness not reached: "+l)
+			}
 		}
 	}
 	return res, nil
